@@ -1103,12 +1103,12 @@ impl<'a> Model<'a> {
             }
             _ => {}
         }
-        let has_cdefault = d.from_ident.is_some();
+        let has_cdefault = d.from_ident.is_some() || d.container_default.is_some();
         self.finish_checks(&d.fields, has_cdefault, &mut st)?;
         if !st.leaves.is_empty() {
             return Ok(Err(st.leaves));
         }
-        let mut inherited: BTreeMap<&'static str, Val> = BTreeMap::new();
+        let mut inherited: BTreeMap<&'static str, Val> = self.container_default(&d.fields, d.container_default.as_ref())?;
         if let Some(site) = d.from_ident {
             self.seam_infallible(site, "from_ident")?;
             for f in &d.fields {
@@ -1185,7 +1185,8 @@ impl<'a> Model<'a> {
         out.extend(fields_out);
         // keep the field order of the hand-written Observe impls: magic first, then darling fields,
         // except receivers observed through observe_struct! (declaration order)
-        Ok(Ok(Val::Struct(d.name.to_string(), reorder(d.name, out))))
+        let val = Val::Struct(d.name.to_string(), reorder(d.name, out));
+        self.container_post(d.container_post.as_ref(), val)
     }
 
     fn body_field(&mut self, leaf_ty: &BodyLeaf, fd: &FieldDoc) -> M<Conv> {
